@@ -25,6 +25,7 @@ ASSUMPTIONS = [
     'the other candidates use fixed draws (first available partners, crossover only at the forced index) - their vectors and energies stay symbolic',
     'Powell: Brent line search replaced by its contract (evaluates func(0) and func(alpha) for an arbitrary step length alpha with func(alpha) <= func(0), returns (alpha, func(alpha)))',
     'one step per harness from an arbitrary state satisfying the invariant (induction); settings fixed during the step',
+    'ensembles: only the reduction kernel (best member hand-back) is executed; whole lattice/buckshot/sparsity solves are outside the claim',
 ]
 BOUNDS = {'quick': dict(dim='1..2', NP=4, strategies=['Best1Bin', 'Rand1Exp'], steps='1 (DE, NM from arbitrary state); 0..2 from arbitrary x0 (NM start, Powell)'),
           'thorough': dict(dim='1..3', NP='4..6', strategies='all ten', steps='1 (DE, NM from arbitrary state); 0..2 from arbitrary x0 (NM start, Powell)')}
@@ -186,6 +187,12 @@ def instances(tier, seed):
                 for cons in ((None,) if q else (None, 'pure')):
                     out.append(Instance('mode-step/%s/%s/box%d/%s' % (kind, mode, S.BOX_POOL.index((lo, hi)), cons or 'nocons'),
                                         S.mode_step(kind, mode, lo, hi, cons, oblig)))
+    # ensembles: the reduction kernel (reported pair = a best member's pair, also after the members progressed in step mode)
+    from harness import c09
+    for ek in ('lattice', 'buckshot'):
+        for mk in ('NM', 'DE'):
+            for n in ((2,) if q else (1, 2, 3)):
+                out.append(Instance('ensemble-reduction/%s/%s-members/n=%d' % (ek, mk, n), c09.reduction(ek, mk, n, 2)))
     for kind in ('fmin', 'fmin_powell', 'diffev', 'diffev2'):
         for cfg in (('plain', 'box+cons+pen') if q else ('plain', 'pen', 'cons', 'box', 'box+cons+pen')):
             for mi in ((1,) if q else (0, 1, 2)):
